@@ -83,6 +83,7 @@ type Contract struct {
 	Results   []string
 	Props     []string
 	GhostPars []string
+	Binds     map[string]string // spec name -> callee key: the result of the (first dominating) call of that callee
 	Requires  []*Clause
 	Ensures   []*Clause
 	Modifies  []*SExpr
@@ -497,6 +498,20 @@ func (db *SpecDB) loadFile(path, pkgShort string, slashAt bool) error {
 			cur.Props = strings.Fields(strings.ReplaceAll(rest, ",", " "))
 		case "ghostparam":
 			cur.GhostPars = append(cur.GhostPars, strings.Fields(strings.ReplaceAll(rest, ",", " "))...)
+		case "bind":
+			// bind NAME = CALLEE : NAME denotes the result of the call of CALLEE in this function,
+			// whatever local (if any) the code keeps it in
+			if cur == nil {
+				return fmt.Errorf("%s: bind outside block", pos)
+			}
+			parts := strings.SplitN(rest, "=", 2)
+			if len(parts) != 2 {
+				return fmt.Errorf("%s: bind NAME = CALLEE", pos)
+			}
+			if cur.Binds == nil {
+				cur.Binds = map[string]string{}
+			}
+			cur.Binds[strings.TrimSpace(parts[0])] = strings.TrimSpace(parts[1])
 		case "trusted":
 			cur.Trusted = true
 		case "inline":
